@@ -17,23 +17,24 @@ import (
 // ---------------------------------------------------------------------------
 
 type Program struct {
-	W         *World
-	RepoDir   string
-	ModPath   string
-	pkgs      []*packages.Package
-	prog      *ssa.Program
-	Specs     *Specs
-	funcs     map[string]*ssa.Function // by ssa String()
-	byName    map[string]*types.Package
-	byPath    map[string]*types.Package
-	modSets   map[*ssa.Function]*modSet
-	modBusy   map[*ssa.Function]bool
+	rtTypes        []types.Type
+	W              *World
+	RepoDir        string
+	ModPath        string
+	pkgs           []*packages.Package
+	prog           *ssa.Program
+	Specs          *Specs
+	funcs          map[string]*ssa.Function // by ssa String()
+	byName         map[string]*types.Package
+	byPath         map[string]*types.Package
+	modSets        map[*ssa.Function]*modSet
+	modBusy        map[*ssa.Function]bool
 	mutableGlobals map[string]bool
 	errGlobals     map[string]int // immutable globals initialised by errors.New / fmt.Errorf: unique id
 	globalsByObj   map[types.Object]*ssa.Global
-	NilChecks bool
-	specErrs  []string
-	LoadErrs  []string
+	NilChecks      bool
+	specErrs       []string
+	LoadErrs       []string
 }
 
 func (p *Program) specError(format string, a ...any) {
@@ -253,6 +254,9 @@ func (p *Program) findMutableGlobals() {
 type modSet struct {
 	all   bool
 	names map[string]Sort
+	// the summarised function calls its own function-valued parameter k: whoever uses the summary adds what
+	// the function passed there writes (resolveParamCalls), or everything if it cannot tell
+	paramCalls map[int]bool
 }
 
 func newModSet() *modSet { return &modSet{names: map[string]Sort{}} }
@@ -263,6 +267,51 @@ func (m *modSet) add(o *modSet) {
 	}
 	for k, v := range o.names {
 		m.names[k] = v
+	}
+	// o.paramCalls is resolved by the caller of add, never copied blindly
+}
+
+// resolveParamCalls: ms is the summary of callee, used at a call whose ssa arguments are args (receiver
+// first for methods, as in ssa). The functions passed for the parameters the callee calls are added; an
+// argument that is the enclosing function's own parameter is passed on in outer.paramCalls.
+func (p *Program) resolveParamCalls(out *modSet, ms *modSet, args []ssa.Value, outerFn *ssa.Function, depth int) {
+	for k := range ms.paramCalls {
+		if k >= len(args) {
+			out.all = true
+			return
+		}
+		switch a := args[k].(type) {
+		case *ssa.MakeClosure:
+			out.add(p.funcModSetDepth(a.Fn.(*ssa.Function), depth+1))
+			if len(p.funcModSetDepth(a.Fn.(*ssa.Function), depth+1).paramCalls) > 0 {
+				out.all = true
+			}
+		case *ssa.Function:
+			out.add(p.funcModSetDepth(a, depth+1))
+			if len(p.funcModSetDepth(a, depth+1).paramCalls) > 0 {
+				out.all = true
+			}
+		case *ssa.Parameter:
+			idx := -1
+			if outerFn != nil {
+				for i, pp := range outerFn.Params {
+					if pp == a {
+						idx = i
+					}
+				}
+			}
+			if idx < 0 {
+				out.all = true
+				return
+			}
+			if out.paramCalls == nil {
+				out.paramCalls = map[int]bool{}
+			}
+			out.paramCalls[idx] = true
+		default:
+			out.all = true
+			return
+		}
 	}
 }
 
@@ -480,6 +529,16 @@ func (p *Program) instrMods(ms *modSet, fn *ssa.Function, ins ssa.Instruction, d
 				return
 			}
 			if ct := p.Specs.Contracts[key]; p.isModuleType(c.Value.Type()) && (ct == nil || ct.Dispatch) {
+				// an interface with a method whose signature names a type defined in this module can only be
+				// implemented by the module's own types (nothing imports the main module): the call writes
+				// what one of those implementations writes
+				if cms := p.closedInvokeModSet(c, depth); cms != nil {
+					ms.add(cms)
+					return
+				}
+				if os.Getenv("GOVC_MODDEBUG") != "" {
+					fmt.Fprintf(os.Stderr, "modset all: %s: %s\n", fn, ins)
+				}
 				ms.all = true
 				return
 			}
@@ -490,7 +549,21 @@ func (p *Program) instrMods(ms *modSet, fn *ssa.Function, ins ssa.Instruction, d
 		if callee == nil {
 			if mc, ok := c.Value.(*ssa.MakeClosure); ok {
 				callee = mc.Fn.(*ssa.Function)
+			} else if pa, ok := c.Value.(*ssa.Parameter); ok && pa.Parent() == fn && len(fn.FreeVars) == 0 {
+				for i, pp := range fn.Params {
+					if pp == pa {
+						if ms.paramCalls == nil {
+							ms.paramCalls = map[int]bool{}
+						}
+						ms.paramCalls[i] = true
+					}
+				}
+				// the called function's own parameters and results are not written by the call itself
+				return
 			} else {
+				if os.Getenv("GOVC_MODDEBUG") != "" {
+					fmt.Fprintf(os.Stderr, "modset all: %s: %s\n", fn, ins)
+				}
 				ms.all = true
 				return
 			}
@@ -508,15 +581,117 @@ func (p *Program) instrMods(ms *modSet, fn *ssa.Function, ins ssa.Instruction, d
 				ms.add(p.externalModSet(callee.Signature, nil, false))
 				return
 			}
-			ms.add(p.funcModSetDepth(callee, depth+1))
+			cms := p.funcModSetDepth(callee, depth+1)
+			ms.add(cms)
+			p.resolveParamCalls(ms, cms, c.Args, fn, depth)
 			return
 		}
 		if p.canInline(callee) {
-			ms.add(p.funcModSetDepth(callee, depth+1))
+			cms := p.funcModSetDepth(callee, depth+1)
+			ms.add(cms)
+			p.resolveParamCalls(ms, cms, c.Args, fn, depth)
 			return
 		}
 		ms.add(p.externalModSet(callee.Signature, nil, false))
 	}
+}
+
+// closedInvokeModSet: what an interface method call may write when the interface can only be implemented by
+// the module's own types, all of which are known: the union over the implementations. nil otherwise.
+func (p *Program) closedInvokeModSet(c *ssa.CallCommon, depth int) *modSet {
+	iface, ok := c.Value.Type().Underlying().(*types.Interface)
+	if !ok || !p.closedInterface(iface) {
+		return nil
+	}
+	ims := p.implementors(iface, c.Method.Name())
+	if len(ims) == 0 || !p.implementorsComplete(iface, ims) {
+		return nil
+	}
+	ms := newModSet()
+	for _, im := range ims {
+		ims := p.funcModSetDepth(im.Fn, depth+1)
+		ms.add(ims)
+		if len(ims.paramCalls) > 0 {
+			return nil
+		}
+	}
+	if ms.all {
+		return nil
+	}
+	return ms
+}
+
+// implementorsComplete: every type that the program ever converts to an interface (ssa's runtime types:
+// instantiations of generic types and function-local types included) and that implements iface is one of ims.
+func (p *Program) implementorsComplete(iface *types.Interface, ims []implementor) bool {
+	if p.rtTypes == nil {
+		p.rtTypes = p.prog.RuntimeTypes()
+	}
+	for _, rt := range p.rtTypes {
+		if types.IsInterface(rt) || !types.Implements(rt, iface) {
+			continue
+		}
+		found := false
+		for _, im := range ims {
+			if types.Identical(im.T, rt) {
+				found = true
+				break
+			}
+			// *T is listed when T itself implements the interface only through the pointer; a value type T
+			// whose pointer is listed (or the reverse) has the same method bodies
+			if pt, ok := rt.(*types.Pointer); ok && types.Identical(im.T, pt.Elem()) {
+				found = true
+				break
+			}
+		}
+		if !found {
+			return false
+		}
+	}
+	return true
+}
+
+// closedInterface: some method of iface mentions, in its signature, a named type declared in the module.
+func (p *Program) closedInterface(iface *types.Interface) bool {
+	var mentions func(t types.Type, d int) bool
+	mentions = func(t types.Type, d int) bool {
+		if d > 6 {
+			return false
+		}
+		switch x := t.(type) {
+		case *types.Named:
+			if o := x.Obj(); o != nil && o.Pkg() != nil && strings.HasPrefix(o.Pkg().Path(), p.ModPath) {
+				return true
+			}
+			return false
+		case *types.Pointer:
+			return mentions(x.Elem(), d+1)
+		case *types.Slice:
+			return mentions(x.Elem(), d+1)
+		case *types.Array:
+			return mentions(x.Elem(), d+1)
+		case *types.Map:
+			return mentions(x.Key(), d+1) || mentions(x.Elem(), d+1)
+		case *types.Signature:
+			for i := 0; i < x.Params().Len(); i++ {
+				if mentions(x.Params().At(i).Type(), d+1) {
+					return true
+				}
+			}
+			for i := 0; i < x.Results().Len(); i++ {
+				if mentions(x.Results().At(i).Type(), d+1) {
+					return true
+				}
+			}
+		}
+		return false
+	}
+	for i := 0; i < iface.NumMethods(); i++ {
+		if mentions(iface.Method(i).Type(), 0) {
+			return true
+		}
+	}
+	return false
 }
 
 func (p *Program) funcModSet(fn *ssa.Function) *modSet { return p.funcModSetDepth(fn, 0) }
@@ -554,6 +729,10 @@ func (p *Program) loopModSet(fn *ssa.Function, body map[*ssa.BasicBlock]bool) *m
 		for _, ins := range b.Instrs {
 			p.instrMods(ms, fn, ins, 0, func(a *ssa.Alloc) bool { return body[a.Block()] })
 		}
+	}
+	if len(ms.paramCalls) > 0 {
+		// the loop calls a function-valued parameter of its own function: unknown here
+		ms.all = true
 	}
 	return ms
 }
